@@ -2,7 +2,7 @@
 # confirm_seed.sh <id>: the agent's demo must fail against the changed worktree and pass against the unchanged /repo
 id=$1; wt=/tmp/mut_$id; out=$wt/_out
 libm=$wt/_b/bin/libcds-s.a; [ -f $libm ] || libm=/repo/_build/bin/libcds-s.a
-g++ -std=c++11 -O1 -g -pthread -mcx16 -I$wt -isystem /root/miniconda/include $out/demo.cpp $libm -o /tmp/demo_${id}_mut 2>/tmp/demo_${id}_mut.err || { echo "$id: demo does not compile against the change"; tail -3 /tmp/demo_${id}_mut.err; }
-g++ -std=c++11 -O1 -g -pthread -mcx16 -I/repo -isystem /root/miniconda/include $out/demo.cpp /repo/_build/bin/libcds-s.a -o /tmp/demo_${id}_base 2>/tmp/demo_${id}_base.err || { echo "$id: demo does not compile against /repo"; tail -3 /tmp/demo_${id}_base.err; }
+g++ -std=c++11 -O1 -g -pthread -mcx16 -I$wt -isystem /root/miniconda/include $out/demo.cpp $libm -L/root/miniconda/lib -Wl,-rpath,/root/miniconda/lib -lboost_thread -lboost_system -o /tmp/demo_${id}_mut 2>/tmp/demo_${id}_mut.err || { echo "$id: demo does not compile against the change"; tail -3 /tmp/demo_${id}_mut.err; }
+g++ -std=c++11 -O1 -g -pthread -mcx16 -I/repo -isystem /root/miniconda/include $out/demo.cpp /repo/_build/bin/libcds-s.a -L/root/miniconda/lib -Wl,-rpath,/root/miniconda/lib -lboost_thread -lboost_system -o /tmp/demo_${id}_base 2>/tmp/demo_${id}_base.err || { echo "$id: demo does not compile against /repo"; tail -3 /tmp/demo_${id}_base.err; }
 fm=0; fb=0; for i in 1 2 3; do timeout 120 /tmp/demo_${id}_mut >/dev/null 2>&1 || fm=$((fm+1)); timeout 120 /tmp/demo_${id}_base >/dev/null 2>&1 || fb=$((fb+1)); done
 echo "$id: demo failed $fm/3 with the change, $fb/3 without"
